@@ -69,15 +69,17 @@ func main() {
 			*seedF = s
 		}
 	}
-	scratch, err := os.MkdirTemp("", "sifh-"+*prop+"-")
+	// a C10 child works inside its parent's scratch directory, so that one that dies leaves nothing behind
+	scratch, err := os.MkdirTemp(os.Getenv("C10_TMP"), "sifh-"+*prop+"-")
 	if err != nil {
 		fmt.Println("cannot create scratch dir:", err)
 		os.Exit(2)
 	}
+	scratchRoot = scratch
 	defer os.RemoveAll(scratch)
 
 	if *replay != "" {
-		os.Exit(doReplay(*replay, scratch))
+		exit(doReplay(*replay, scratch))
 	}
 	crashMode = *prop == "C09"
 	var o *Output
@@ -85,7 +87,7 @@ func main() {
 	case "hist":
 		if _, ok := propSpecs[*prop]; !ok {
 			fmt.Println("no history campaign for", *prop)
-			os.Exit(2)
+			exit(2)
 		}
 		o = decideHist(*prop, *tier, *seedF, scratch, *replays)
 	default:
@@ -99,8 +101,18 @@ func main() {
 		fmt.Println(m)
 	}
 	if o.Violations > 0 {
-		os.Exit(1)
+		exit(1)
 	}
+}
+
+// scratchRoot is the run's scratch directory; exit removes it (os.Exit skips deferred calls).
+var scratchRoot string
+
+func exit(code int) {
+	if scratchRoot != "" {
+		os.RemoveAll(scratchRoot)
+	}
+	os.Exit(code)
 }
 
 func isFlagSet(name string) bool {
